@@ -30,10 +30,13 @@ def build(job):
         keys = {f[0]: (f[3] if len(f) > 3 else f[0]) for f in files}
         files = [f[:3] for f in files]
         pattern_files = [(n, s) for n, pat, s in files if pat]
+        # (a third of the runs: committing is switched on by --commit over a configured commit = false - the dirty check belongs to the run that commits)
+        import zlib
+        cli_commit = zlib.crc32(repr((files, allow, cfg_state)).encode()) % 3 == 1
         # the configured path of a renamed pattern file is its NEW name; the KEY under which it is configured may be another spelling of the
         # path (./name, a glob that matches only it): which file carries a pattern does not depend on the spelling
         # series.txt carries a PARTIAL pattern (MAJOR.MINOR): under --patch its text does not change - it still is a file carrying a version pattern
-        proj.write("bumpver.toml", project.bumpver_toml(OLD, "MAJOR.MINOR.PATCH", [(keys[n], ["series MAJOR.MINOR" if n == "series.txt" else "{version}"]) for n, _s in pattern_files], commit=True))
+        proj.write("bumpver.toml", project.bumpver_toml(OLD, "MAJOR.MINOR.PATCH", [(keys[n], ["series MAJOR.MINOR" if n == "series.txt" else "{version}"]) for n, _s in pattern_files], commit=not cli_commit))
         for n, pat, s in files:
             if s in ("A ", "AM", "??"):
                 continue
@@ -80,7 +83,7 @@ def build(job):
         # (a third of the runs with --ignore-vcs-tag: the option speaks of where the old version is taken from; there are no tags here, the dirty check is the same)
         import zlib
         ign = ["--ignore-vcs-tag"] if zlib.crc32(repr((files, allow, cfg_state)).encode()) % 3 == 0 else []
-        r = drive.cli(["update", "--patch", "--no-fetch"] + ign + (["--allow-dirty"] if allow else []), cwd=proj.root, env=GENV)
+        r = drive.cli(["update", "--patch", "--no-fetch"] + ign + (["--commit"] if cli_commit else []) + (["--allow-dirty"] if allow else []), cwd=proj.root, env=GENV)
         after = proj.snapshot()
         head1 = git(root, "rev-parse", "HEAD").strip()
         sweep = False
